@@ -333,6 +333,13 @@ def strcat(a, b):
     return ('strcat', a, b)
 
 
+def stringy(k):
+    """The value is a text whenever it exists (a text literal, a formatted
+    text, or a concatenation with one of them: `str + other` raises)."""
+    return k[0] == 'fmt' or (k[0] == 'const' and isinstance(k[1], str)) \
+        or (k[0] == 'strcat' and (stringy(k[1]) or stringy(k[2])))
+
+
 def lits_of(k, pol=True):
     """Flatten one condition into a set of literal keys."""
     if not pol:
@@ -711,6 +718,9 @@ TRANSPARENT_CALLS = {'float': 'numeric identity on numbers',
                      'numpy.any': 'same'}
 
 
+_ALIAS = ('aliasof',)
+
+
 class State(object):
     def __init__(self, env=None, heap=None, trace=None):
         self.env = env if env is not None else {}
@@ -761,6 +771,11 @@ class Evaluator(object):
         if n.id in getattr(self, 'locals_', ()):
             # a function-local that is not bound on this path
             st.trace.append(('unbound', n.id, getattr(n, 'lineno', None)))
+        alias = getattr(self, '_module_alias', None)
+        if alias is not None and isinstance(n.ctx, ast.Load):
+            a = alias(n)
+            if a is not None:
+                return self.ev(a, st)
         return ('name', n.id)
 
     def ev_Attribute(self, n, st):
@@ -892,6 +907,20 @@ class Evaluator(object):
             r = self.k(right, st)
             if isinstance(op, (ast.In, ast.NotIn)) and r[0] == 'list':
                 r = ('tuple', r[1])     # membership in a literal
+            if isinstance(op, (ast.In, ast.NotIn)) and isinstance(
+                    right, (ast.Name, ast.Attribute)) and hasattr(
+                    self, '_const_binding'):
+                # membership in a read-only table of constants
+                tb = self._const_binding(right, (ast.Dict, ast.Tuple,
+                                                 ast.List))
+                members = None
+                if isinstance(tb, ast.Dict):
+                    members = tb.keys
+                elif tb is not None:
+                    members = tb.elts
+                if members and all(isinstance(m, ast.Constant)
+                                   for m in members):
+                    r = ('tuple', tuple(self.k(m, st) for m in members))
             parts.append(b_cmp(_CMPOPS[type(op)], left, r))
             left = r
         if len(parts) == 1:
@@ -994,7 +1023,7 @@ class Evaluator(object):
             if isinstance(stmt, ast.ImportFrom) and stmt.module == 'operator':
                 for a in stmt.names:
                     if (a.asname or a.name) == name and a.name in (
-                            'add', 'sub', 'mul'):
+                            'add', 'sub', 'mul', 'itemgetter'):
                         return a.name
         return None
 
@@ -1059,6 +1088,10 @@ class Evaluator(object):
             st.env[target.id] = val
         elif isinstance(target, (ast.Tuple, ast.List)):
             vk = key(val)
+            if vk[0] == 'call' and vk[1] in (('name', 'list'),
+                                             ('name', 'tuple')) \
+                    and len(vk[2]) == 1 and not vk[3]:
+                vk = vk[2][0]       # a, b = list(x)  ==  a, b = x
             for i, e in enumerate(target.elts):
                 if vk[0] in ('tuple', 'list') and len(vk[1]) == len(
                         target.elts):
@@ -1117,11 +1150,33 @@ class Evaluator(object):
                     base = ('bv', self.depth)
                     elt = self._apply_binary(f, base, a[1][0])
                     return ('comp', 'gen', elt, ((base, xs, ()),))
-        args = [self.k(a, st) for a in n.args]
+        args = []
+        for a in n.args:
+            ak = self.k(a, st)
+            if ak[0] == 'star' and ak[1][0] in ('tuple', 'list'):
+                args.extend(ak[1][1])       # f(*(a, b))  ==  f(a, b)
+            else:
+                args.append(ak)
         kws = tuple(sorted(((kw.arg, self.k(kw.value, st))
                             for kw in n.keywords), key=_sk))
+        if cname == 'warn' and kws:
+            # the stack level changes only which source line a warning is
+            # attributed to
+            kws = tuple(kw for kw in kws if kw[0] != 'stacklevel')
+        if len(args) == 1 and not kws and (
+                (fk[0] == 'name' and self._operator_name(fk[1])
+                 == 'itemgetter') or fk == ('attr', ('name', 'operator'),
+                                            'itemgetter')):
+            # itemgetter(k)  ==  lambda v: v[k]
+            return ('lambda', 1, ('sub', ('bv', 'lam', 0), args[0]))
+        if cname == 'isinstance' and len(args) == 2 and not kws \
+                and args[1][0] == 'tuple' and args[1][1]:
+            # isinstance(x, (A, B))  ==  isinstance(x, A) or isinstance(x, B)
+            return self._bool('or', [
+                as_bool(('call', fk, (args[0], c), ()))
+                for c in args[1][1]])
         if len(args) == 2 and not kws and fk[0] == 'name' \
-                and self._operator_name(fk[1]) is not None:
+                and self._operator_name(fk[1]) in ('add', 'sub', 'mul'):
             return poly_of_key(self._apply_binary(fk, args[0], args[1]))
         if cname in self.transparent and len(args) == 1 and not kws:
             return poly_of_key(args[0])
@@ -1620,6 +1675,78 @@ class Summarizer(Evaluator):
         return paths
 
     # returns list of (state, outcome-or-None)
+    def _pop_idiom(self, stmts):
+        """`x = L[c]` ... `del L[c]`, where the statements between are
+        simple, leave L and x alone and read L only as `L[c]`
+        ==  `x = L.pop(c)` with those reads replaced by `x`."""
+        import copy
+        out = list(stmts)
+        i = 0
+        while i < len(out):
+            a = out[i]
+            i += 1
+            if not (isinstance(a, ast.Assign) and len(a.targets) == 1
+                    and isinstance(a.targets[0], ast.Name)
+                    and isinstance(a.value, ast.Subscript)
+                    and isinstance(a.value.value, ast.Name)
+                    and isinstance(a.value.slice, ast.Constant)):
+                continue
+            x, L = a.targets[0].id, a.value.value.id
+            want = ast.dump(a.value)
+            for j in range(i, min(i + 4, len(out))):
+                b = out[j]
+                if isinstance(b, ast.Delete) and len(b.targets) == 1 \
+                        and isinstance(b.targets[0], ast.Subscript) \
+                        and ast.dump(_load(b.targets[0])) == want:
+                    between = out[i:j]
+                    ok = True
+                    for m in between:
+                        if not isinstance(m, (ast.Expr, ast.Assign)):
+                            ok = False
+                            break
+                        reads = 0
+                        for node in ast.walk(m):
+                            if isinstance(node, ast.Subscript) and isinstance(
+                                    node.ctx, ast.Load) and ast.dump(
+                                    node) == want:
+                                reads += 1
+                        names = sum(1 for node in ast.walk(m) if isinstance(
+                            node, ast.Name) and node.id == L)
+                        if names != reads or any(
+                                isinstance(node, ast.Name) and node.id == x
+                                and isinstance(node.ctx, ast.Store)
+                                for node in ast.walk(m)):
+                            ok = False
+                            break
+                    if not ok:
+                        break
+
+                    class R(ast.NodeTransformer):
+                        def visit_Subscript(self, node):
+                            if isinstance(node.ctx, ast.Load) and ast.dump(
+                                    node) == want:
+                                return ast.copy_location(ast.Name(
+                                    id=x, ctx=ast.Load()), node)
+                            return self.generic_visit(node)
+                    pop = ast.Assign(targets=a.targets, value=ast.Call(
+                        func=ast.Attribute(value=a.value.value, attr='pop',
+                                           ctx=ast.Load()),
+                        args=[a.value.slice], keywords=[]))
+                    ast.copy_location(pop, a)
+                    ast.fix_missing_locations(pop)
+                    new_between = []
+                    for m in between:
+                        m2 = R().visit(copy.deepcopy(m))
+                        ast.fix_missing_locations(m2)
+                        new_between.append(m2)
+                    out[i - 1:j + 1] = [pop] + new_between
+                    break
+                if any(isinstance(node, ast.Name) and node.id in (x, L)
+                       and isinstance(node.ctx, (ast.Store, ast.Del))
+                       for node in ast.walk(b)):
+                    break
+        return out
+
     def _peephole(self, stmts):
         """`if k not in d: d[k] = v` followed by `x = d[k]`
         ==  `x = d.setdefault(k, v)`."""
@@ -1660,7 +1787,7 @@ class Summarizer(Evaluator):
     def block(self, stmts, st):
         live = [(st, None)]
         if len(stmts) > 1:
-            stmts = self._peephole(stmts)
+            stmts = self._peephole(self._pop_idiom(stmts))
         for stmt in stmts:
             nxt = []
             for s, o in live:
@@ -1688,6 +1815,9 @@ class Summarizer(Evaluator):
                 fake = ast.If(test=ife.test, body=[a], orelse=[b])
                 ast.copy_location(fake, n)
                 return self.st_If(fake, st)
+            bo = self._value_boolop(n)
+            if bo is not None:
+                return self.block(bo, st)
             tl = _find_expr(hdr, lambda x: isinstance(x, ast.Subscript)
                             and isinstance(x.ctx, ast.Load)
                             and not isinstance(x.slice, ast.Constant)
@@ -1719,11 +1849,63 @@ class Summarizer(Evaluator):
                         return r
         return m(n, st)
 
+    _BOOL_CALLS = ('isinstance', 'hasattr', 'callable', 'any', 'all', 'bool',
+                   'issubclass', 'startswith', 'endswith', 'isdigit',
+                   'isalpha', 'isspace', 'isalnum', 'isupper', 'islower')
+
+    def _boolean_looking(self, e):
+        if isinstance(e, ast.Compare):
+            return True
+        if isinstance(e, ast.UnaryOp) and isinstance(e.op, ast.Not):
+            return True
+        if isinstance(e, ast.BoolOp):
+            return all(self._boolean_looking(v) for v in e.values)
+        if isinstance(e, ast.Constant):
+            return isinstance(e.value, bool)
+        if isinstance(e, ast.Call):
+            f = e.func
+            name = f.id if isinstance(f, ast.Name) else (
+                f.attr if isinstance(f, ast.Attribute) else None)
+            return name in self._BOOL_CALLS
+        return False
+
+    def _value_boolop(self, n):
+        """`x = a or b` / `return a or b` where the operands are values, not
+        tests: the statements `x = a; if not x: x = b` (`and`: `if x`)."""
+        if isinstance(n, ast.Assign) and len(n.targets) == 1 and isinstance(
+                n.targets[0], ast.Name):
+            name = n.targets[0].id
+        elif isinstance(n, ast.Return) and n.value is not None:
+            name = None
+        else:
+            return None
+        v = n.value
+        if not isinstance(v, ast.BoolOp) or self._boolean_looking(v):
+            return None
+        tmp = name or '_boolop_%d' % n.lineno
+        rest = v.values[1] if len(v.values) == 2 else ast.BoolOp(
+            op=v.op, values=v.values[1:])
+        load = ast.Name(id=tmp, ctx=ast.Load())
+        test = load if isinstance(v.op, ast.And) else ast.UnaryOp(
+            op=ast.Not(), operand=load)
+        out = [ast.Assign(targets=[ast.Name(id=tmp, ctx=ast.Store())],
+                          value=v.values[0]),
+               ast.If(test=test, body=[ast.Assign(
+                   targets=[ast.Name(id=tmp, ctx=ast.Store())], value=rest)],
+                   orelse=[])]
+        if name is None:
+            out.append(ast.Return(value=ast.Name(id=tmp, ctx=ast.Load())))
+        for o in out:
+            ast.copy_location(o, n)
+            ast.fix_missing_locations(o)
+        return out
+
     # -- class/module-level literal tables that nothing writes to -----------
-    def _const_table(self, node):
-        """The ast.Dict bound to `self.NAME` / `cls.NAME` / `Class.NAME` /
-        module-level `NAME` when that binding is a literal dict of constants
-        which nothing in the module stores into or re-binds."""
+    def _const_binding(self, node, kinds):
+        """The literal (one of the ast classes `kinds`) bound once to
+        `self.NAME` / `cls.NAME` / `Class.NAME` / module-level `NAME`, with
+        at most 12 entries, which nothing in the module stores into,
+        re-binds or mutates."""
         if self.ctx is None:
             return None
         rel, mod, cls = self.ctx
@@ -1737,23 +1919,73 @@ class Summarizer(Evaluator):
             elif node.value.id in classes:
                 owner = classes[node.value.id]
             name = node.attr
+        elif isinstance(node, ast.Name) and isinstance(node.ctx, ast.Load) \
+                and node.id not in getattr(self, 'locals_', ()) \
+                and node.id not in getattr(self, 'params_', ()):
+            owner, name = mod, node.id
         if owner is None or name is None:
             return None
-        ck = (id(owner), name)
+        ck = (id(owner), name, kinds)
         if ck in self._tables:
             return self._tables[ck]
         res = None
         from .match import readonly_literal_table
         binds = [x for x in owner.body if isinstance(x, ast.Assign) and any(
             isinstance(t, ast.Name) and t.id == name for t in x.targets)]
-        if len(binds) == 1 and isinstance(binds[0].value, ast.Dict) \
-                and 0 < len(binds[0].value.keys) <= 12 and all(
-                    isinstance(k, ast.Constant)
-                    for k in binds[0].value.keys) \
-                and readonly_literal_table(mod, owner, name):
-            res = binds[0].value
+        if len(binds) == 1 and isinstance(binds[0].value, kinds):
+            val = binds[0].value
+            n_entries = len(val.keys if isinstance(val, ast.Dict)
+                            else val.elts)
+            shadowed = any(
+                isinstance(x, ast.Name) and (
+                    x.id in getattr(self, 'locals_', ())
+                    or x.id in getattr(self, 'params_', ()))
+                for x in ast.walk(val))
+            if 0 < n_entries <= 12 and not shadowed and (
+                    not isinstance(val, ast.Dict) or all(
+                        isinstance(k, ast.Constant) for k in val.keys)) \
+                    and readonly_literal_table(mod, owner, name,
+                                               literal=False):
+                res = val
         self._tables[ck] = res
         return res
+
+    def _module_alias(self, node):
+        """The attribute chain a private module-level name (`_X = a.b.c`,
+        bound once, never re-bound) stands for."""
+        if self.ctx is None or not node.id.startswith('_') \
+                or node.id in getattr(self, 'locals_', ()) \
+                or node.id in getattr(self, 'params_', ()):
+            return None
+        rel, mod, cls = self.ctx
+        ck = (id(mod), node.id, 'alias')
+        if ck in self._tables:
+            return self._tables[ck]
+        res = None
+        binds = [x for x in mod.body if isinstance(x, ast.Assign) and any(
+            isinstance(t, ast.Name) and t.id == node.id for t in x.targets)]
+        if len(binds) == 1 and isinstance(binds[0].value, ast.Attribute) \
+                and all(isinstance(x, (ast.Attribute, ast.Name, ast.Load))
+                        for x in ast.walk(binds[0].value)):
+            from .match import readonly_literal_table
+            root = [x for x in ast.walk(binds[0].value)
+                    if isinstance(x, ast.Name)]
+            if readonly_literal_table(mod, mod, node.id, literal=False) \
+                    and not any(r.id in getattr(self, 'locals_', ())
+                                or r.id in getattr(self, 'params_', ())
+                                for r in root):
+                res = binds[0].value
+        self._tables[ck] = res
+        return res
+
+    def _const_table(self, node):
+        """A read-only literal dict with constant keys (see
+        _const_binding)."""
+        return self._const_binding(node, (ast.Dict,))
+
+    def _const_seq(self, node):
+        """A read-only literal tuple/list (see _const_binding)."""
+        return self._const_binding(node, (ast.Tuple, ast.List))
 
     # -- following helpers that were introduced after the review ---------
     def _resolve(self, call):
@@ -2132,6 +2364,12 @@ class Summarizer(Evaluator):
     def st_Raise(self, n, st):
         if n.exc is None:
             return [(st, ('raise', '<reraise>', ()))]
+        if isinstance(n.exc, ast.Name) and n.cause is None:
+            cur = st.env.get(n.exc.id)
+            if isinstance(cur, tuple) and cur[:1] == ('exc',) and isinstance(
+                    cur[1], tuple):
+                # `except E as exc: raise exc` lets the caught exception go
+                return [(st, ('raise', '<reraise>', ()))]
         if isinstance(n.exc, ast.Call):
             cls = src(n.exc.func)
             args = tuple(self.k(a, st) for a in n.exc.args)
@@ -2172,6 +2410,7 @@ class Summarizer(Evaluator):
         vk = key(val)
         if isinstance(target, ast.Name):
             st.env[target.id] = val
+            st.heap.pop((_ALIAS, target.id), None)
         elif isinstance(target, ast.Attribute):
             base = self.k(target.value, st)
             tk = ('attr', base, target.attr)
@@ -2186,6 +2425,10 @@ class Summarizer(Evaluator):
             st.heap[(base, ('idx', idx))] = val
             st.trace.append(('store', tk, vk, lineno))
         elif isinstance(target, (ast.Tuple, ast.List)):
+            if vk[0] == 'call' and vk[1] in (('name', 'list'),
+                                             ('name', 'tuple')) \
+                    and len(vk[2]) == 1 and not vk[3]:
+                vk = vk[2][0]       # a, b = list(x)  ==  a, b = x
             for i, e in enumerate(target.elts):
                 if vk[0] in ('tuple', 'list') and len(vk[1]) == len(
                         target.elts):
@@ -2246,6 +2489,7 @@ class Summarizer(Evaluator):
         return [(st, None)]
 
     def st_AugAssign(self, n, st):
+        alias = None
         if isinstance(n.target, ast.Name) and n.target.id in st.env:
             cur = key(st.env[n.target.id])
             ref = cur
@@ -2253,18 +2497,39 @@ class Summarizer(Evaluator):
                 ref = ref[2]
             if ref[0] == 'snapshot':
                 ref = ref[1]
+            # after `x op= y` the name still denotes the object it aliased
+            ref = st.heap.get((_ALIAS, n.target.id), ref)
             if ref[0] in ('name', 'attr', 'sub', 'bv') and not (
                     ref[0] == 'name' and ref[1] in getattr(
                         self, 'locals_', ())):
                 # `x op= y` where x is (an alias of) an object that exists
                 # outside this statement: for arrays and lists the object
                 # itself changes -- not the same as `x = x op y`
-                st.trace.append(('inplace', ref, type(n.op).__name__,
-                                 self.k(n.value, st), n.lineno))
+                alias = ref
+                v = self.k(n.value, st)
+                prev = None
+                if isinstance(n.op, ast.Add) and stringy(v):
+                    # x += 'a'; x += 'b'  ==  x += 'ab' (for a text and for
+                    # a list extended by characters alike); a test between
+                    # the two has no effect of its own
+                    for i in range(len(st.trace) - 1, -1, -1):
+                        if st.trace[i][0] != 'cond':
+                            prev = i
+                            break
+                if prev is not None and st.trace[prev][:3] == (
+                        'inplace', ref, 'Add') and stringy(st.trace[prev][3]):
+                    st.trace[prev] = ('inplace', ref, 'Add',
+                                      strcat(st.trace[prev][3], v),
+                                      st.trace[prev][4])
+                else:
+                    st.trace.append(('inplace', ref, type(n.op).__name__,
+                                     v, n.lineno))
         fake = ast.BinOp(left=_load(n.target), op=n.op, right=n.value)
         ast.copy_location(fake, n)
         val = self.ev(fake, st)
         self.assign(n.target, val, st, n.lineno)
+        if alias is not None:
+            st.heap[(_ALIAS, n.target.id)] = alias
         return [(st, None)]
 
     def st_If(self, n, st):
@@ -2914,6 +3179,11 @@ class Summarizer(Evaluator):
                 elts = r
         if elts is not None and elts:
             return self._unrolled(n, elts, st)
+        seq = self._const_seq(n.iter) if isinstance(
+            n.iter, (ast.Name, ast.Attribute)) else None
+        if seq is not None:
+            # a class- or module-level tuple nothing writes to: spelled out
+            return self._unrolled(n, list(seq.elts), st)
         if isinstance(n.iter, ast.Name) and n.iter.id in st.env:
             # a local bound to a spelled-out tuple/list
             vk = key(st.env[n.iter.id])
@@ -3135,7 +3405,8 @@ class Summarizer(Evaluator):
         return [(st, ('continue',))]
 
     _TRIVIAL = (ast.Assign, ast.Name, ast.Constant, ast.Pass, ast.Tuple,
-                ast.Load, ast.Store, ast.Expr)
+                ast.Load, ast.Store, ast.Expr, ast.Return, ast.Break,
+                ast.Continue)
 
     def _may_raise_into(self, stmt, names, idx):
         """Can an exception that a handler catches come out of `stmt` other
